@@ -12,7 +12,7 @@ import collections, random, re, sys
 from .. import stages
 from ..common import ROOT
 sys.path.insert(0, ROOT)
-from gen.cgen import Gen, mutate_tokens, mutate_bytes
+from gen.cgen import mutate_identifiers, Gen, mutate_tokens, mutate_bytes
 from gen.declgen import DeclGen
 from gen.scopegen import ScopeGen
 from gen.typedefgen import TypedefGen
@@ -20,6 +20,10 @@ from gen.snippets import corpus
 from gen.typedgen import tests as typed_tests, program as typed_program, has_initializer
 
 SHAPES = [
+    "typedef int T; void g(T *x, int T); T y;", "typedef int T; void g(T a[2], const T *b, T (*c)(T), int T); T y; void h(void) { T z; z = y; }",
+    "typedef struct S { int m; } T; void g(T *p, T T); void k(T T, T *q);", "typedef int T; int f(T T) { return T; } T w;", "typedef int T; void g(int T, T *x);",
+    "struct S { struct S s; } x, y; void f(void) { x = y; }", "union U { union U u; int i; } a, b; void f(void) { a = b; a.u = b.u; }", "struct A { struct B b; }; struct B { struct A a; } p, q; void f(void) { p = q; }",
+    "void f(enum E { A, B } e);", "void f(struct P { int a; } p, enum Q { K } q, union R { int r; } *r); int g(enum E2 { X, Y } e) { return e + X; }",
     "void f(int); int *g(int a); int (*h(char))(double); void k(int (*)(void), char *[]);",
     "struct S { int a, : 2; unsigned : 0, b : 3; struct S *n; union { int u; float v; }; } s, *ps;",
     "main() { return 0; } static counter; g(); h() { register i; i = 0; return f() + g() + i; } f() { return 1; }",
@@ -79,6 +83,11 @@ def make_inputs(ctx):
         texts.append(("typedefgen-undeclared", "\n".join(l for l in tg.split("\n") if not l.strip().startswith(("typedef ", "struct ", "union "))) + "\n"))
         # … and made self-referential / cyclic
         texts.append(("typedefgen-cyclic", re.sub(r"typedef (?:const |volatile )?(\w+)", lambda m: "typedef T%d" % rng.randrange(6), tg)))
+    # identifier swaps: one occurrence of a name replaced by another name of the same program (collisions between typedef names, parameters,
+    # members, tags, enumerators, functions; names used in the wrong role; self-reference)
+    pool = [t for k, t in texts if k in ("cgen", "declgen", "scopegen", "typedefgen", "shape")]
+    for i in range(400 if q else 12000):
+        texts.append(("ident-swap", mutate_identifiers(rng, pool[rng.randrange(len(pool))], rng.randrange(1, 4))))
     sn = [t for c, t in corpus() if c == "a"]
     for t in sn[:: (6 if q else 1)]:
         texts.append(("snippets", t))
